@@ -195,6 +195,23 @@ def translate(cfg, outdir):
         static = node.get("storageClass") == "static" or any(
             o.get("kind") == "CXXMethodDecl" and o.get("storageClass") == "static" and o.get("name") == node.get("name") and
             o.get("mangledName") == node.get("mangledName") for o in objs)  # `static` is written on the in-class declaration only
+        if not static and node.get("previousDecl"):
+            # out-of-line definition of a static member function: `static` is only on the in-class declaration
+            def decl_of(n, want, depth=0):
+                if n.get("id") == want:
+                    return n
+                if depth < 6:
+                    for c in n.get("inner", []):
+                        if isinstance(c, dict) and c.get("kind", "").endswith("Decl"):
+                            r = decl_of(c, want, depth + 1)
+                            if r is not None:
+                                return r
+                return None
+            for o in objs:
+                prev = decl_of(o, node["previousDecl"])
+                if prev is not None:
+                    static = prev.get("storageClass") == "static"
+                    break
         if node["kind"] == "CXXConstructorDecl":
             cname = u.get("cname") or em.fn_cname(cls, "ctor", node["type"]["qualType"])
         else:
@@ -257,6 +274,9 @@ def translate(cfg, outdir):
                 tried.add(cn)
                 qn = d.split(" ")[0]
                 emit_unit({"name": qn, "tu": tu, "cname": cn, "class": cn.rsplit("__", 1)[0]}, objs, True)
+    for lu in em.lifted_units:  # lifted lambdas / per-call-site algorithm models: may carry contracts like units
+        meta.append({"unit": "%s of %s" % (lu["kind"], lu["of"]), "cname": lu["cname"], "tu": None, "loops": lu["loops"],
+                     "lifted": True})
     # extra fields requested by the spec (ghost fields or fields used only by predicates)
     for tag, fields in cfg.get("extra_fields", {}).items():
         for f, ct in fields.items():
@@ -269,6 +289,16 @@ def translate(cfg, outdir):
     for d, bs in cfg.get("extra_bases", {}).items():
         for b in bs:
             em.add_base(d, b)
+
+    # ---- pointer conversions emitted as casts: the base must sit at offset 0 (chain of first bases)
+    for d, b in sorted(em.upcasts):
+        cur, seen = d, set()
+        while cur != b and em.bases.get(cur) and cur not in seen:
+            seen.add(cur)
+            cur = em.bases[cur][0]
+        if cur != b:
+            raise ExtractionError("conversion %s* -> %s*: %s is not known as a first base of %s (add extra_bases)" %
+                                  (d, b, b, d))
 
     # ---- enum constants
     enum_defs = []
